@@ -151,12 +151,16 @@ Section WithSort.
               pubs := if kparentless i && kpublic i then pubs s ++ [kid i] else pubs s;
               privs := if kparentless i && negb (kpublic i) then privs s ++ [kid i] else privs s;
               lays := fold_left (fun ls a => add a (kid i) ls) (aliases_of i) (lays s) |}.
-    (* _add_key: subkeys are visited only when the key itself was new *)
-    Definition add_key_with (s : state) (k : key) : state :=
+    (* _add_key (commit 7e98898): the key itself when it is new, then its subkeys -- also those of a key that is already loaded,
+       one of them may have been unloaded on its own; each visit is guarded by the same `pkid not in self._keys` *)
+    Definition add_key_with (s : state) (k : key) : state := fold_left add_one_with (snd k) (add_one_with s (fst k)).
+    (* before commit 7e98898: subkeys were visited only when the key itself was new (kept for the refutation) *)
+    Definition add_key_with_old (s : state) (k : key) : state :=
       if has_key (kid (fst k)) (keys s) then s else fold_left add_one_with (snd k) (add_one_with s (fst k)).
   End WithAdd.
   Definition add_one := add_one_with add_alias.
   Definition add_key := add_key_with add_alias.
+  Definition add_key_old := add_key_with_old add_alias.
 
   (* unload: [(m, a) for m in self._aliases for a, p in m.items() if p == pkid] -- the aliases in iteration order *)
   Definition todo (k : pkid) (ls : layers) : list alias :=
@@ -180,7 +184,8 @@ Section WithSort.
       if kprimary (fst k) then fold_left (unload_one_with cS) (snd k) s1 else s1
     else s.
   Definition unload := unload_with containsS.
-  (* the keyring of before commit 48f9d25: `alias in self` in _add_alias and unload was the blank-stripping membership test *)
+  (* the keyring of before commit 48f9d25: `alias in self` in _add_alias and unload was the blank-stripping membership test
+     (_add_key as it is now: the witnesses have no subkeys) *)
   Definition step_old (s : state) (o : op) : state :=
     match o with Load k => add_key_with (add_alias_with containsS_old) s k | Unload k => unload_with containsS_old s k end.
 
@@ -188,9 +193,15 @@ Section WithSort.
     match o with Load k => add_key s k | Unload k => unload s k end.
   Definition run (ops : list op) : state := fold_left step ops init.
   Definition run_old (ops : list op) : state := fold_left step_old ops init.
+  (* the keyring of before commit 7e98898 (everything else as it is now) *)
+  Definition step_old_addkey (s : state) (o : op) : state :=
+    match o with Load k => add_key_old s k | Unload k => unload s k end.
+  Definition run_old_addkey (ops : list op) : state := fold_left step_old_addkey ops init.
 End WithSort.
 
 (* ---- observations ---- *)
+(* what load() returns for one argument: {ik.fingerprint} | {isk.fingerprint for isk in ik.subkeys.values()} *)
+Definition load_result (k : key) : list alias := map kfp (fst k :: snd k).
 Definition find_key (k : pkid) (ks : list kinfo) : option kinfo := find (fun i => kid i =? k) ks.
 (* with keyring.key(str): None = KeyError *)
 Definition get_key (s : state) (a : alias) : option kinfo :=
